@@ -113,7 +113,7 @@ impl Scenario for HmacSplit {
                 t.ops.push(Op::new(0, K_RESULT).off((idx & 1) as u8));
             }
             None => {
-                let nops = rng.range(0, 12);
+                let nops = if rng.chance(1, 300) { rng.range(300, 700) } else { rng.range(0, 12) };
                 let mut fill = 0usize;
                 let tiny = rng.chance(1, 8);
                 for _ in 0..nops {
